@@ -17,6 +17,7 @@
 -/
 import GunYu.Model.Store
 import GunYu.Proofs.StoreDisk
+import GunYu.Proofs.StoreMem
 
 namespace GunYu.Props.C05
 open GunYu GunYu.Store
@@ -166,5 +167,110 @@ example : (((Disk.init 24 12).run exOps).readers.map (fun r => (r.start, r.pos, 
     [(103, 120, [4,5,6,7,8,9,10,11,12,13,14,15,16,17,18,19,20])] := by decide
 example : ((Disk.init 24 12).run exOps).segs.map (·.left) = [110, 120] := by decide
 example : ((Disk.init 24 12).run exOps).inRange 105 = false ∧ ((Disk.init 24 12).run exOps).inRange 125 = true := by decide
+
+/-! ## Memory backend
+
+    The memory theorems are step-level: they hold for EVERY state `s : Mem` (no
+    reachability hypothesis), hence along every operation list and every
+    interleaving of the steps of writers, copy loops and the collector. The
+    global refinement over operation lists (the analogue of
+    `disk_reader_delivers`) is stated below as `mem_reader_delivers_stmt` and
+    not proved (see `partial` in checks/p/C05.py); what is proved of it is
+    `mem_copy_step_faithful` + `mem_stale_reader_has_no_successor`. -/
+
+/-- **mem_refuses_discontinuous.** A stream writer that does not continue exactly
+    where the held stream ends is refused and changes nothing … -/
+theorem mem_refuses_discontinuous (s : Mem) (off r : Nat) (h : mLastRight s.segs = some r) (hne : r ≠ off) :
+    s.step (.newAofWriter off) = (s, Out.refused) :=
+  newAofWriter_refuses s off r h hne
+
+/-- … and an accepted one continues at the end of what is held. -/
+theorem mem_accepted_writer_is_continuous (s : Mem) (off r : Nat) (h : mLastRight s.segs = some r)
+    (hok : (s.step (.newAofWriter off)).2 = Out.ok) : off = r :=
+  newAofWriter_accepted s off r h hok
+
+/-- **gc_keeps_contiguous_suffix (memory).** The collector removes a prefix of the
+    stream segments only, and every removed segment is closed, unreferenced by any
+    reader and not the writer's current segment. -/
+theorem mem_gc_keeps_contiguous_suffix (s : Mem) (need : Nat) :
+    ∃ pre, s.segs = pre ++ (s.gc need).segs ∧
+      ∀ g ∈ pre, g.closed = true ∧ mRefs s.readers g.sid = 0 ∧ s.aofW ≠ some g.sid :=
+  gc_prefix s need
+
+/-- **snapshot_offered_iff_complete (memory), mechanism.** `GetRdb` offers a
+    snapshot exactly while it is indexed and replayable; -/
+theorem mem_snapshot_offered_iff_replayable (s : Mem) :
+    s.getRdb ≠ (-1, -1) ↔ ∃ r, s.rdb = some r ∧ r.replayable = true :=
+  getRdb_iff_offered s
+
+/-- a snapshot whose writer ends is kept only if every announced byte was
+    appended and the writer did not fail (repaired, D14); -/
+theorem mem_finish_keeps_only_complete (s : Mem) (failed : Bool) (r : MRdb) (hr : s.rdb = some r)
+    (hw : r.writing = true) :
+    (s.finishRdb failed).rdb = none ∨
+    (failed = false ∧ r.size ≤ r.written ∧
+      ∃ r', (s.finishRdb failed).rdb = some r' ∧ r'.writing = false ∧ r'.written = r.written ∧ r'.size = r.size) :=
+  finishRdb_keeps_only_complete s failed r hr hw
+
+/-- and a snapshot that loses a segment to the collector stops being replayable
+    (or disappears) in the same step. -/
+theorem mem_collected_snapshot_not_offered (s s' : Mem) (h : s.gcRdb = some s') :
+    s'.rdb = none ∨ ∃ r', s'.rdb = some r' ∧ r'.replayable = false := by
+  obtain ⟨_, _, _, _, r, first, rest, _, _, _, _, hcase⟩ := gcRdb_spec h
+  rcases hcase with h1 | ⟨r', h1, _, h2⟩
+  · exact Or.inl h1
+  · exact Or.inr ⟨r', h1, h2⟩
+
+/-- **reader steps are faithful.** An iteration of a stream reader's copy loop
+    that delivers bytes delivers exactly the rest of the segment it holds from
+    its position on, and advances the position by that many bytes. -/
+theorem mem_copy_step_faithful (s : Mem) (rid : Nat) (r : MReader) (g : MSeg)
+    (hf : mFindReader s.readers rid = some r) (hrun : r.released = false) (hst : r.started = true)
+    (hu : r.closedByUser = false) (ha : r.isAof = true) (hl : s.lookup r.seg = some g)
+    (hpos : g.left ≤ r.pos) (hne : (g.data.drop (r.pos - g.left)) ≠ []) :
+    (s.copyStep rid).1.readers = mSetReader s.readers
+      { r with pos := r.pos + (g.data.drop (r.pos - g.left)).length,
+               buf := r.buf ++ g.data.drop (r.pos - g.left),
+               out := r.out ++ g.data.drop (r.pos - g.left) } :=
+  copyStep_aof_faithful s rid r g hf hrun hst hu ha hl hpos hne
+
+/-- **invalidated_reader_ends (memory).** A reset empties the index (every
+    segment of the old history is closed and only reachable by the readers that
+    hold it), and the successor of a segment is looked up by identity: a reader
+    holding a segment that is not in the index finds no successor — it ends, it
+    does not continue into a new history (repaired, D25). -/
+theorem mem_reset_empties_index (s : Mem) : s.reset.segs = [] ∧ s.reset.rdb = none ∧ s.reset.aofW = none ∧
+    ∀ g ∈ s.segs, ∃ g' ∈ s.reset.heap, g'.sid = g.sid ∧ g'.closed = true ∧ g'.data = g.data :=
+  reset_index_empty s
+
+theorem mem_stale_reader_has_no_successor (segs : List MSeg) (sid : Nat) (h : ∀ g ∈ segs, g.sid ≠ sid) :
+    mNextOf segs sid = none :=
+  mNextOf_none_of_not_mem segs sid h
+
+/-- the full statement for the memory backend (not proved): after any operation
+    list, every running stream reader has delivered exactly the appended bytes
+    `[start, pos)` -/
+def mem_reader_delivers_stmt : Prop :=
+  ∀ (l m : Nat) (ops : List MOp),
+    let s := (Mem.init l m).run ops
+    ∀ r ∈ s.readers, r.isAof = true → r.st = RSt.running → r.released = false →
+      s.hbase ≤ r.start ∧ r.start ≤ r.pos ∧
+      r.out = (s.hist.drop (r.start - s.hbase)).take (r.pos - r.start)
+
+/-! ### non-vacuity (memory): rotation, collection with a pinned segment, a
+    refused writer, a reader that follows across segments -/
+
+def exMemOps : List MOp :=
+  [ .setRunId "id1", .newAofWriter 100, .aofAppend [1,2,3,4,5,6,7,8],
+    .openReader 0 102, .startReader 0, .copyStep 0,
+    .aofAppend [9,10,11,12], .copyStep 0, .copyStep 0, .copyStep 0,
+    .newAofWriter 999, .aofAppend [13,14,15,16,17,18,19,20], .copyStep 0, .consume 0 100 ]
+
+example : (((Mem.init 8 16).run exMemOps).segs.map (fun g => (g.left, g.data.length, g.closed))) =
+    [(108, 8, true), (116, 4, false)] := by decide
+example : (((Mem.init 8 16).run exMemOps).readers.map (fun r => (r.start, r.pos, r.out))) =
+    [(102, 116, [3,4,5,6,7,8,9,10,11,12,13,14,15,16])] := by decide
+-- the discontinuous writer (offset 999, held stream ends at 112) is refused
+example : (((Mem.init 8 16).run (exMemOps.take 10)).step (.newAofWriter 999)).2 = Out.refused := by decide
 
 end GunYu.Props.C05
